@@ -520,6 +520,19 @@ func joinerSwaps(r *RNG, s string, all []string) []string {
 			}
 		}
 	}
+	// digit-free identifier lists on the text's core: one identifier "a-b" against the two "a", "b",
+	// and a digit-bearing neighbour that takes the ordinary path
+	core := s
+	if i := strings.IndexAny(s, "-+~_"); i > 0 {
+		core = s[:i]
+	}
+	j := string(s[pos[len(pos)-1]])
+	for _, ids := range []string{"a.b", "a-b", "a.c1", "a-c1"} {
+		out = append(out, core+"-"+ids)
+		if j != "-" && j != "." {
+			out = append(out, core+j+ids)
+		}
+	}
 	return out
 }
 
